@@ -1101,7 +1101,9 @@ impl<'de, 'e> YamlDeserializer<'de, 'e> {
         let is_null = matches!(
             self.ev.peek()?,
             Some(Ev::Scalar { anchor, tag, value, style, .. })
-                if *anchor == 0 && (tag == &SfTag::Null || scalar_is_nullish_for_option(value, style))
+                if *anchor == 0
+                    && (tag == &SfTag::Null
+                        || (tag != &SfTag::Binary && scalar_is_nullish_for_option(value, style)))
         );
         if is_null {
             let _ = self.ev.next()?;
@@ -1172,8 +1174,9 @@ impl<'de, 'e> de::Deserializer<'de> for YamlDeserializer<'de, 'e> {
                     return visitor.visit_unit();
                 }
                 let is_plain = matches!(style, ScalarStyle::Plain);
-                // Treat all YAML null-like scalars (null, ~, empty) as null when typeless.
-                if scalar_is_nullish(value, style) {
+                // Treat all YAML null-like scalars (null, ~, empty) as null when typeless
+                // (a `!!binary` scalar is a payload: the base64 text of some bytes spells `null`).
+                if tag != &SfTag::Binary && scalar_is_nullish(value, style) {
                     let _ = self.ev.next()?; // consume
                     return visitor.visit_unit();
                 }
@@ -1450,7 +1453,9 @@ impl<'de, 'e> de::Deserializer<'de> for YamlDeserializer<'de, 'e> {
                 ..
             }) => {
                 // Check for null - not valid for string deserialization
-                if tag == &SfTag::Null || scalar_is_nullish(value, style) {
+                if tag == &SfTag::Null
+                    || (tag != &SfTag::Binary && scalar_is_nullish(value, style))
+                {
                     let loc = *location;
                     let _ = self.ev.next()?;
                     return Err(Error::NullIntoString { location: loc });
@@ -1511,7 +1516,10 @@ impl<'de, 'e> de::Deserializer<'de> for YamlDeserializer<'de, 'e> {
         }) = self.ev.peek()?
         {
             // If explicitly tagged as null, or plain null-like, this is not a valid String.
-            if (tag == &SfTag::Null || scalar_is_nullish(value, style)) && tag != &SfTag::String {
+            if (tag == &SfTag::Null || scalar_is_nullish(value, style))
+                && tag != &SfTag::String
+                && tag != &SfTag::Binary
+            {
                 // Consume the scalar to anchor the error at the correct location.
                 let (_value, _tag, location) = self.take_scalar_event()?;
                 return Err(Error::NullIntoString { location });
@@ -1833,8 +1841,8 @@ impl<'de, 'e> de::Deserializer<'de> for YamlDeserializer<'de, 'e> {
             ..
         }) = self.ev.peek()?
         {
-            // Treat null-like scalar as an empty sequence.
-            if tag == &SfTag::Null || scalar_is_nullish(s, style) {
+            // Treat null-like scalar as an empty sequence (not a `!!binary` payload that spells one).
+            if tag == &SfTag::Null || (tag != &SfTag::Binary && scalar_is_nullish(s, style)) {
                 let _ = self.ev.next()?; // consume the null-like scalar
                 struct EmptySeq;
                 impl<'de> de::SeqAccess<'de> for EmptySeq {
